@@ -12,7 +12,7 @@ DESCRIPTION = {
              "handshake, a ping outstanding when the application starts closing (answered in time by pong or data, close reply after the ping deadline), and running the clock far past onClose.  Oracle: silent peer => transport dropped at a virtual time <= arm time + timeout and onClose(False,1006,reason) "
              "whose text names the expired timer; peer with >=1s to spare => never dropped by that timer, connection open / closed cleanly; while pongs arrive at r with >=1s to "
              "spare the next ping is written within (r+interval-1, r+interval]; after onClose nothing happens.  Clients also connect through an explicit HTTP proxy (proxy silent / proxy answers and server silent / both answer): the opening-handshake deadline covers the CONNECT exchange.  A ping may be answered by a data frame followed by its pong.  Ping outstanding when the application starts closing: responsive peer is kept, silent peer is dropped by the ping deadline.  Silent-peer scenarios also run with a peer that has stopped reading: only an abort ends the connection there.  Non-trivial = a reaction within 1s of a deadline or two timers "
-             "pending at once; distinct by (scenario, config, placements)."),
+             "pending at once; distinct by (scenario, config, placements). In the opening scenario the peer's request / response may trickle in (1, 18, all-but-2, all-but-1 octets early, the rest at the drawn time or never): only the complete handshake stops the deadline."),
     "assumptions": ["timer granularity of one second: reactions placed in the last second before a deadline may or may not be in time (not asserted)",
                     "reason text matched by keyword only"],
 }
